@@ -41,11 +41,11 @@ Clauses (als_func, Chebyshev basis):
 
 Samples: every general clause uses training lists in which the sample at position 0 is not the only sample of
 any slice (single-sample slices at positions >= 1 do occur), so that the known defect is confined to its clause.
-Tolerances: ALS is a composition of ridge solves with condition ~ |A|^2 / lamb per sweep, so "same result up
-to rounding" is measured against the observed amplification: the reference run is repeated with initial cores,
-values and weights (als_func: points) perturbed relatively by 1e-13 (~1000 ulp); if that moves the denoted tensor by dd and the cores by dc, two
-results count as equal when they differ by <= 10 dd + 1e-11 (tensor) and <= 10 dc + 1e-9 (cores); cases with
-dd > 1e-5 are SKIPped (conditioning rule).  Optimality uses the relative residual of the normal equations, 1e-10.
+Tolerances: every core update solves ridge systems of condition kappa = (|A^T W A| + lamb) / lamb with a
+backward-stable solver, so mathematically equal runs differ by a multiple of eps * kappa (kappa is computed here
+from the initial and the final tensors): "same result" means <= 1e5 eps kappa for the denoted tensor and
+<= 1e6 eps kappa for the cores; cases with kappa > 1e6 are SKIPped (conditioning rule).  Optimality uses the
+relative residual of the normal equations (1e-10), descent a relative slack of 1e-10.
 """
 import itertools
 import numpy as np
@@ -108,53 +108,51 @@ def _slice_residuals(Y, I, y, lamb, w, k):
     return out
 
 
-PERT = 1e-13
+EPS = float(np.finfo(float).eps)
+KAPPA_MAX = 1e6
 
 
-def _perturb(arrs, seed):
-    """Relative entrywise perturbation of size PERT (about 1000 ulp) of a list of float arrays."""
-    g = gen.rng('C07pert', seed)
-    return [A * (1.0 + PERT * g.uniform(-1, 1, size=A.shape)) for A in arrs]
+def _kappa(Ys, I, lamb, w):
+    """Largest condition number (|A^T W A| + lamb) / lamb of the per-slice ridge systems of all cores, evaluated at
+    the given tensors (initial and final ones)."""
+    ww = np.ones(len(I)) if w is None else np.asarray(w, dtype=float)
+    kap = 1.0
+    for Y in Ys:
+        for k in range(len(Y)):
+            L, R = _interfaces(Y, I, k)
+            for j in range(Y[k].shape[1]):
+                idx = np.where(I[:, k] == j)[0]
+                if len(idx):
+                    A = (L[idx][:, :, None] * R[idx][:, None, :]).reshape(len(idx), -1)
+                    s = np.linalg.norm(np.sqrt(ww[idx])[:, None] * A, 2) ** 2
+                    kap = max(kap, (s + lamb) / lamb)
+    return float(kap)
 
 
-def _sensitivity(run, Y0, y, aux, seed):
-    """run(Y0, y, aux) on the inputs and on inputs perturbed relatively by PERT: returns (result, dd, dc) with
-    the relative change of the denoted tensor and of the cores.  aux are the weights (als; ones if there are
-    none -- perturbing them perturbs the normal-equation matrices A^T W A in every sweep exactly like the rounding
-    of their summation does, which a perturbation of the values y alone does not) or the points X (als_func)."""
-    Y = run(Y0, y, aux)
-    Yp = run(_perturb(Y0, seed), _perturb([y], seed + 1)[0], _perturb([aux], seed + 2)[0])
-    A, B = gen.dense(Y), gen.dense(Yp)
-    dd = float(np.linalg.norm(A - B) / max(np.linalg.norm(A), 1e-300))
-    sc = max(np.abs(G).max() for G in Y)
-    dc = float(max(np.abs(P - Q).max() for P, Q in zip(Y, Yp)) / max(sc, 1e-300))
-    return Y, dd, dc
-
-
-def _same_result(Ya, Yb, sens, what):
-    """Compare two results against the measured sensitivity sens = (dd, dc): a rounding-level change of the
-    inputs (PERT = 1e-13 ~ 1000 ulp) moves the result by dd / dc, so results that agree "up to rounding" differ
-    by a fraction of that; tolerance 10 * dd + 1e-11 (tensor) and 10 * dc + 1e-9 (cores).  Message or None."""
-    dd, dc = sens
+def _same_result(Ya, Yb, kap, what):
+    """"Same result up to rounding": every core update solves ridge systems of condition <= kap with a
+    backward-stable solver, i.e. with relative error ~ eps * kap (in the weakly determined directions), so two
+    mathematically equal runs may differ by a multiple of eps * kap (errors of early sweeps are propagated
+    through the later ones).  Tolerance: 1e5 * eps * kap for the denoted tensor, 1e6 * eps * kap for the cores
+    (observed over ~40000 random cases: <= 1.3e3 resp. <= 1.3e4).
+    Returns a message or None."""
     if [G.shape for G in Ya] != [G.shape for G in Yb]:
         return f'{what}: core shapes differ {[G.shape for G in Ya]} vs {[G.shape for G in Yb]}'
     A, B = gen.dense(Ya), gen.dense(Yb)
     dist, nrm = np.linalg.norm(A - B), np.linalg.norm(A)
-    tol = 10 * dd + 1e-11
+    tol = 1e5 * EPS * kap
     if not dist <= tol * nrm + 1e-100:                  # floor: strong regularisation collapses both to ~0
-        return f'{what}: denoted tensors differ, rel. {dist / max(nrm, 1e-300):.3e} > {tol:.1e}'
+        return f'{what}: denoted tensors differ, rel. {dist / max(nrm, 1e-300):.3e} > {tol:.1e} (kappa {kap:.1e})'
     sc = max(np.abs(G).max() for G in Ya)
     dcc = max(np.abs(P - Q).max() for P, Q in zip(Ya, Yb))
-    tol = 10 * dc + 1e-9
+    tol = 1e6 * EPS * kap
     if not dcc <= tol * sc + 1e-100:
-        return f'{what}: cores differ, rel. {dcc / max(sc, 1e-300):.3e} > {tol:.1e}'
+        return f'{what}: cores differ, rel. {dcc / max(sc, 1e-300):.3e} > {tol:.1e} (kappa {kap:.1e})'
     return None
 
 
-def _too_sensitive(sens):
-    """Conditioning rule of the comparison clauses: SKIP when a 1e-13 perturbation of the inputs already moves
-    the result by more than 1e-5 (the comparison would have no power)."""
-    return sens[0] > 1e-5 or sens[1] > 1e-3 or not np.isfinite(sens[0])
+def _ill(kap):
+    return SKIP(f'ill-conditioned case: ridge systems with condition {kap:.1e} > {KAPPA_MAX:.0e}')
 
 
 # ----------------------------------------------------------------------------------------------- generators
@@ -272,14 +270,14 @@ def last_core_optimal(n, r, m, lamb, weighted, nswp, seed):
 def restart(n, r, m, lamb, weighted, nswp, seed):
     """a+b sweeps equal a sweeps followed by a restart for b sweeps, for every split of nswp."""
     I, y, w, Y0 = _problem(n, r, m, lamb, weighted, seed)
-    Y, dd, dc = _sensitivity(lambda Y0_, y_, w_: teneva.als(I, y_, Y0_, nswp=nswp, e=None, lamb=lamb, w=w_), Y0, y,
-                              np.ones(len(y)) if w is None else w, seed)
-    if _too_sensitive((dd, dc)):
-        return SKIP(f'ill-conditioned case: a 1e-13 perturbation of the inputs changes the result by {dd:.1e}')
+    Y = teneva.als(I, y, Y0, nswp=nswp, e=None, lamb=lamb, w=w)
+    kap = _kappa([Y0, Y], I, lamb, w)
+    if kap > KAPPA_MAX:
+        return _ill(kap)
     for a in range(1, nswp):
         Ya = teneva.als(I, y, Y0, nswp=a, e=None, lamb=lamb, w=w)
         Yb = teneva.als(I, y, Ya, nswp=nswp - a, e=None, lamb=lamb, w=w)
-        msg = _same_result(Y, Yb, (dd, dc), f'{nswp} sweeps vs {a} + {nswp - a}')
+        msg = _same_result(Y, Yb, max(kap, _kappa([Ya], I, lamb, w)), f'{nswp} sweeps vs {a} + {nswp - a}')
         if msg:
             return FAIL(msg)
     return PASS if nswp > 1 else TRIVIAL('single sweep')
@@ -295,12 +293,12 @@ def permutation(n, r, m, lamb, weighted, nswp, seed, pseed):
     if q is None:
         return SKIP('no order with a safe first sample')
     p = p[q]
-    Y, dd, dc = _sensitivity(lambda Y0_, y_, w_: teneva.als(I, y_, Y0_, nswp=nswp, e=None, lamb=lamb, w=w_), Y0, y,
-                              np.ones(len(y)) if w is None else w, seed)
-    if _too_sensitive((dd, dc)):
-        return SKIP(f'ill-conditioned case: a 1e-13 perturbation of the inputs changes the result by {dd:.1e}')
+    Y = teneva.als(I, y, Y0, nswp=nswp, e=None, lamb=lamb, w=w)
     Yp = teneva.als(I[p], y[p], Y0, nswp=nswp, e=None, lamb=lamb, w=None if w is None else w[p])
-    msg = _same_result(Y, Yp, (dd, dc), 'original vs permuted sample order')
+    kap = _kappa([Y0, Y, Yp], I, lamb, w)
+    if kap > KAPPA_MAX:
+        return _ill(kap)
+    msg = _same_result(Y, Yp, kap, 'original vs permuted sample order')
     return check(msg is None, msg)
 
 
@@ -318,10 +316,11 @@ def duplicates_as_weights(n, r, m, lamb, nswp, seed):
     rep = rep[q]
     Yd = teneva.als(I[rep], y[rep], Y0, nswp=nswp, e=None, lamb=lamb)
     cw = c.astype(float)
-    Yw, dd, dc = _sensitivity(lambda Y0_, y_, w_: teneva.als(I, y_, Y0_, nswp=nswp, e=None, lamb=lamb, w=w_), Y0, y, cw, seed)
-    if _too_sensitive((dd, dc)):
-        return SKIP(f'ill-conditioned case: a 1e-13 perturbation of the inputs changes the result by {dd:.1e}')
-    msg = _same_result(Yw, Yd, (dd, dc), 'weights c_s vs c_s-fold duplicates')
+    Yw = teneva.als(I, y, Y0, nswp=nswp, e=None, lamb=lamb, w=cw)
+    kap = _kappa([Y0, Yw, Yd], I, lamb, cw)
+    if kap > KAPPA_MAX:
+        return _ill(kap)
+    msg = _same_result(Yw, Yd, kap, 'weights c_s vs c_s-fold duplicates')
     return check(msg is None, msg)
 
 
@@ -368,16 +367,17 @@ def _single_sample(n, r, lamb, nswp, seed, mode, pos):
     (I, y), (Io, yo), j, total = case
     Y0 = gen.tt(n, r, seed, 'gauss')
     Y = teneva.als(I, y, Y0, nswp=nswp, e=None, lamb=lamb)
-    Yo, dd, dc = _sensitivity(lambda Y0_, y_, w_: teneva.als(Io, y_, Y0_, nswp=nswp, e=None, lamb=lamb, w=w_), Y0, yo,
-                               np.ones(len(yo)), seed)
-    if _too_sensitive((dd, dc)):
-        return SKIP(f'ill-conditioned case: a 1e-13 perturbation of the inputs changes the result by {dd:.1e}')
+    Yo = teneva.als(Io, yo, Y0, nswp=nswp, e=None, lamb=lamb)
     where = int(np.where((I[:, mode] == j))[0][0])
-    msg = _same_result(Yo, Y, (dd, dc), f'single sample of slice {j} of mode {mode} at position {where} of {total} vs at '
+    if np.array_equal(Y[mode][:, j, :], Y0[mode][:, j, :]):
+        return FAIL(f'slice {j} of mode {mode}, covered by the single sample at list position {where} of {total}, '
+                    f'still has exactly its initial value after {nswp} sweeps: it was never trained')
+    kap = _kappa([Y0, Yo], Io, lamb, None)
+    if kap > KAPPA_MAX:
+        return _ill(kap)
+    msg = _same_result(Yo, Y, kap, f'single sample of slice {j} of mode {mode} at position {where} of {total} vs at '
                                    f'position {int(np.where(Io[:, mode] == j)[0][0])}')
     if msg:
-        if np.array_equal(Y[mode][:, j, :], Y0[mode][:, j, :]):
-            msg += ' -- the slice still has its initial value (never trained)'
         return FAIL(msg)
     if mode == 1:
         res = _slice_residuals(Y, I, y, lamb, None, 1)
@@ -585,6 +585,24 @@ def _fobj(A, H, y, lamb):
     return float(np.sum(r * r) + lamb * sum(float(np.sum(G * G)) for G in A))
 
 
+def _fkappa(As, H, lamb):
+    """Largest condition number (|D^T D| + lamb) / lamb of the whole-core ridge systems of als_func."""
+    m, d = H[0].shape[0], len(H)
+    kap = 1.0
+    for A in As:
+        Ls = [np.ones((m, 1))]
+        for q in range(d - 1):
+            Ls.append(np.einsum('sa,sj,ajb->sb', Ls[-1], H[q], A[q]))
+        Rs = [np.ones((m, 1))]
+        for q in range(d - 1, 0, -1):
+            Rs.append(np.einsum('sj,ajb,sb->sa', H[q], A[q], Rs[-1]))
+        Rs = Rs[::-1]
+        for k in range(d):
+            D = (Ls[k][:, :, None, None] * H[k][:, None, :, None] * Rs[k][:, None, None, :]).reshape(m, -1)
+            kap = max(kap, (np.linalg.norm(D, 2) ** 2 + lamb) / lamb)
+    return float(kap)
+
+
 def _fproblem(d, nm, r, m, seed, box):
     g = gen.rng('C07f', d, nm, r, m, seed)
     a, b = box
@@ -643,14 +661,14 @@ def f_last_core_optimal(d, nm, r, m, lamb, nswp, seed, box):
 def f_restart(d, nm, r, m, lamb, nswp, seed, box):
     """a+b sweeps equal a sweeps then b sweeps from the result."""
     X, y, A0, H = _fproblem(d, nm, r, m, seed, box)
-    A, dd, dc = _sensitivity(lambda A0_, y_, X_: teneva.als_func(X_, y_, A0_, box[0], box[1], nswp=nswp, e=None,
-                                                                  lamb=lamb), A0, y, X, seed)
-    if _too_sensitive((dd, dc)):
-        return SKIP(f'ill-conditioned case: a 1e-13 perturbation of the inputs changes the result by {dd:.1e}')
+    A = teneva.als_func(X, y, A0, box[0], box[1], nswp=nswp, e=None, lamb=lamb)
+    kap = _fkappa([A0, A], H, lamb)
+    if kap > KAPPA_MAX:
+        return _ill(kap)
     for a_ in range(1, nswp):
         Aa = teneva.als_func(X, y, A0, box[0], box[1], nswp=a_, e=None, lamb=lamb)
         Ab = teneva.als_func(X, y, Aa, box[0], box[1], nswp=nswp - a_, e=None, lamb=lamb)
-        msg = _same_result(A, Ab, (dd, dc), f'{nswp} sweeps vs {a_} + {nswp - a_}')
+        msg = _same_result(A, Ab, max(kap, _fkappa([Aa], H, lamb)), f'{nswp} sweeps vs {a_} + {nswp - a_}')
         if msg:
             return FAIL(msg)
     return PASS if nswp > 1 else TRIVIAL('single sweep')
@@ -661,12 +679,12 @@ def f_permutation(d, nm, r, m, lamb, nswp, seed, box, pseed):
     """The result does not depend on the order of the training points."""
     X, y, A0, H = _fproblem(d, nm, r, m, seed, box)
     p = gen.rng('C07fperm', pseed).permutation(m)
-    A, dd, dc = _sensitivity(lambda A0_, y_, X_: teneva.als_func(X_, y_, A0_, box[0], box[1], nswp=nswp, e=None,
-                                                                  lamb=lamb), A0, y, X, seed)
-    if _too_sensitive((dd, dc)):
-        return SKIP(f'ill-conditioned case: a 1e-13 perturbation of the inputs changes the result by {dd:.1e}')
+    A = teneva.als_func(X, y, A0, box[0], box[1], nswp=nswp, e=None, lamb=lamb)
     Ap = teneva.als_func(X[p], y[p], A0, box[0], box[1], nswp=nswp, e=None, lamb=lamb)
-    msg = _same_result(A, Ap, (dd, dc), 'original vs permuted order')
+    kap = _fkappa([A0, A, Ap], H, lamb)
+    if kap > KAPPA_MAX:
+        return _ill(kap)
+    msg = _same_result(A, Ap, kap, 'original vs permuted order')
     return check(msg is None, msg)
 
 
